@@ -20,7 +20,7 @@ for f in conf:
                 ours[idx[k]] = e
         json.dump(ours, open("known_findings.json", "w"), indent=1)
         sh("git", "add", f)
-    elif f == "MANIFEST.json":
+    elif f == "MANIFEST.json" or f.startswith("evidence/"):
         sh("git", "checkout", "--ours", f); sh("git", "add", f)
     else:
         print("UNRESOLVED:", f)
